@@ -122,6 +122,22 @@ class Opaque(Val):
         return "Opaque(%s)" % self.tag
 
 
+class Mat(Val):
+    """An element of an uninterpreted matrix ring (sparse / dense matrices whose entries are not modelled)."""
+
+    def __init__(self, t):
+        self.t = t
+
+    def __repr__(self):
+        return "Mat(%s)" % self.t
+
+
+MAT = z3.DeclareSort("Mat")
+M_SMUL = z3.Function("mat_smul", MAT, z3.RealSort(), MAT)
+M_MUL = z3.Function("mat_mul", MAT, MAT, MAT)
+M_ADD = z3.Function("mat_add", MAT, MAT, MAT)
+
+
 class Undef(Val):
     """Placeholder for a variable that is certainly unbound."""
 
@@ -163,11 +179,11 @@ class HListArr:
 class HListTup:
     """list of fixed-arity tuples of scalars; cols[j] : Array(Int -> sort)."""
 
-    def __init__(self, kinds, cols, n):
-        self.kinds, self.cols, self.n = list(kinds), list(cols), n
+    def __init__(self, kinds, cols, n, names=None):
+        self.kinds, self.cols, self.n, self.names = list(kinds), list(cols), n, names
 
     def clone(self):
-        return HListTup(self.kinds, self.cols, self.n)
+        return HListTup(self.kinds, self.cols, self.n, self.names)
 
 
 class HDict:
